@@ -1837,16 +1837,21 @@ func isContextFlagLoad(v ssa.Value) bool {
 // differs from val rules its edge out; for every remaining edge either the
 // incoming value settles it or the branch conditions on the way to that edge do.
 func boolImpliesFlagDown(v ssa.Value, val bool, d int) bool {
+	return boolImpliesDown(v, val, d, isContextFlagLoad)
+}
+
+// boolImpliesDown: the same for any boolean flag recognised by isFlag.
+func boolImpliesDown(v ssa.Value, val bool, d int, isFlag func(ssa.Value) bool) bool {
 	if d > 6 {
 		return false
 	}
-	if isContextFlagLoad(v) {
+	if isFlag(v) {
 		return !val
 	}
 	switch x := v.(type) {
 	case *ssa.UnOp:
 		if x.Op == token.NOT {
-			return boolImpliesFlagDown(x.X, !val, d+1)
+			return boolImpliesDown(x.X, !val, d+1, isFlag)
 		}
 	case *ssa.Phi:
 		any := false
@@ -1858,7 +1863,7 @@ func boolImpliesFlagDown(v ssa.Value, val bool, d int) bool {
 				// the constant arrived because an earlier operand decided: the conditions on the way say which
 			}
 			any = true
-			if boolImpliesFlagDown(e, val, d+1) {
+			if boolImpliesDown(e, val, d+1, isFlag) {
 				continue
 			}
 			settled := false
@@ -1868,7 +1873,7 @@ func boolImpliesFlagDown(v ssa.Value, val bool, d int) bool {
 				if u, ok := c.(*ssa.UnOp); ok && u.Op == token.NOT {
 					c, taken = u.X, !taken
 				}
-				if isContextFlagLoad(c) && !taken {
+				if isFlag(c) && !taken {
 					settled = true
 				}
 			})
